@@ -145,7 +145,10 @@ def list_theorems(module_file, prefix):
         m = re.match(r"^namespace\s+(\S+)", line)
         if m:
             ns = m.group(1)
-        m = re.match(r"^(?:theorem|lemma)\s+(" + re.escape(prefix) + r"\w*)", line)
+        m = re.match(r"^end\s+(\S+)", line)
+        if m and ns and m.group(1) == ns:
+            ns = None
+        m = re.match(r"^(?:theorem|lemma)\s+((?:fact_)?" + re.escape(prefix) + r"\w*)", line)
         if m:
             res.append((ns, m.group(1)))
     return res
